@@ -353,7 +353,8 @@ def derived_strings(c, strs, limit=24):
 def build_converter(recs, d, mode):
     """The converter the records denote, built in one of three ways (the properties quantify over every converter, however
     it came about): 0 the constructor; 1 Converter([]) + add_record one by one; 2 bare records first (add_prefix without synonym
-    arguments, or add_record for a pattern), their synonyms merged in afterwards with add_prefix(..., merge=True)."""
+    arguments, or add_record for a pattern), their synonyms merged in afterwards with add_prefix(..., merge=True); 3 like 2 with
+    the CURIE-prefix synonyms and the URI-prefix synonyms merged in two separate calls."""
     import curies
 
     if mode == 0:
@@ -369,8 +370,14 @@ def build_converter(recs, d, mode):
         else:
             c.add_record(curies.Record(prefix=p, uri_prefix=u, pattern=pat.v))
     for p, u, ps, us, pat in recs:
-        if ps or us:
-            c.add_prefix(p, u, prefix_synonyms=list(ps), uri_prefix_synonyms=list(us), merge=True)
+        if mode == 2:
+            if ps or us:
+                c.add_prefix(p, u, prefix_synonyms=list(ps), uri_prefix_synonyms=list(us), merge=True)
+        else:   # mode 3: CURIE-prefix synonyms and URI-prefix synonyms arrive in separate merges
+            if ps:
+                c.add_prefix(p, u, prefix_synonyms=list(ps), merge=True)
+            if us:
+                c.add_prefix(p, u, uri_prefix_synonyms=list(us), merge=True)
     return c
 
 
@@ -425,7 +432,7 @@ def gen_qcase(rng: random.Random, focus: str):
                 strs.append(r[1] + "1")
         strs = list(dict.fromkeys(strs))
     pairs = gen_pairs(rng, recs, rng.randint(0, 2) if focus not in ("C02", "C08") else rng.randint(1, 3))
-    return [recs, d, strs, pairs, rng.choice([0, 0, 0, 1, 2, 2])]
+    return [recs, d, strs, pairs, rng.choice([0, 0, 0, 1, 2, 2, 3, 3])]
 
 
 def nontrivial_q(focus: str, case) -> bool:
